@@ -183,6 +183,13 @@ pub fn is_live(id: u32) -> bool {
     (id as usize) < s.live.len() && s.live[id as usize] == 1
 }
 
+/// handed out to the caller by the crate and kept by the harness
+#[inline]
+pub fn is_held(id: u32) -> bool {
+    let s = st();
+    (id as usize) < s.live.len() && s.live[id as usize] == 2
+}
+
 #[inline]
 pub fn set_live(id: u32) {
     let s = st();
